@@ -100,6 +100,8 @@ func main() {
 		})
 	}
 	worker(6, func(r *rand.Rand) { bus.Wait() })
+	worker(15, func(r *rand.Rand) { bus.Wait() }) // several goroutines in Wait at once
+	worker(16, func(r *rand.Rand) { bus.Wait() })
 	worker(7, func(r *rand.Rand) {
 		n := 0
 		bus.ReplayWithUpcast(ctx, eb.OffsetOldest, func(e *eb.StoredEvent) error {
